@@ -118,4 +118,20 @@ def ipAddress (be : Backend) (addr : List Char) (version : Option Nat) (flags : 
         | .ok v => .ok ⟨6, v⟩
         | .error _ => .error .addrFormat
 
+/-! ### `repr(IPAddress)` (`BaseIP.__repr__`: `"%s('%s')" % (self.__class__.__name__, self)`) -/
+
+def reprPrefix : List Char := "IPAddress('".toList
+def reprSuffix : List Char := "')".toList
+
+/-- `repr(ip)` for an `IPAddress` object: the class name and `str(ip)` in single quotes -/
+def reprAddr (be : Backend) (a : Addr) : List Char :=
+  reprPrefix ++ (intToStr be a.ver a.val ++ reprSuffix)
+
+/-- the text between `IPAddress('` and `')` (no `eval`: plain prefix / suffix removal);
+    `none` when the string does not have that frame -/
+def unquoteRepr (s : List Char) : Option (List Char) :=
+  if reprPrefix.isPrefixOf s && reprSuffix.isSuffixOf (s.drop reprPrefix.length) then
+    some ((s.drop reprPrefix.length).take (s.length - reprPrefix.length - reprSuffix.length))
+  else none
+
 end NV.AddrParse
